@@ -334,6 +334,7 @@ _ADD = {
     'C14': 'Atoms with explicit and implicit hydrogens at once, ring bonds that become coordinate bonds and unbalanced zwitter-ions are in the special cases; idempotence and equivariance are required up to '
            'equivalent localised forms when the skeleton has equivalent atoms; 11 further in-place operations (kekule, thiele, clean_*, remove_*, saturate, fix_stereo ...) are checked for cache coherence only.',
     'C03': 'The curated list also holds direction marks on the opening / closing / both ring-closure digits, stereo marks on mapped atoms, the interdependent and the isotopic-H families.',
+    'C05': 'Aromatic texts as a person writes them (bond between two aromatic rings left implicit; one or two hetero atoms that the library repairs by rule), each paired with a Kekule text in the same atom order: kekule, enumerate_kekule, copy+kekule and enumerate-then-kekule as the FIRST conversion of the freshly parsed object under every GEN renumbering.',
     'C02': 'Isotopic hydrogen atoms on stereo elements, even cumulenes and substituted allenes are part of the families.',
 }
 for _k, _v in _ADD.items():
